@@ -84,7 +84,9 @@ def run(rep, tier, seed):
     for j, c in enumerate(rd.replay):
         data = totc.depth_doc(c["construct"], c["n"], quad_cap=3000 if big else 700)
         cases.append({"k": f"depth-{j}", "b64": vlib.b64(data), "cfg": {}, "what": f"depth:{c['construct']}", "n": c["n"],
-                      "allowed": c["allowed"], "timeout_ms": 120000 if c["n"] >= 5000 else 30000, "trace": c["n"] <= 100, "trace_cap": 20000})
+                      "allowed": c["allowed"],
+                      # retry-nested either returns at once or (listed finding) never: a short watchdog suffices
+                      "timeout_ms": (8000 if not big else 30000) if c["construct"] == "retry-nested" else (120000 if c["n"] >= 5000 else 30000), "trace": c["n"] <= 100, "trace_cap": 20000})
     lex = rx.replay
     if not big and len(lex) > 6000:
         lex = rnd.sample(lex, 6000)
@@ -142,7 +144,8 @@ def run(rep, tier, seed):
                                                                "offending_event": what})
     # ---- the other front-ends on a sample ------------------------------------------
     svgdx, server_bin = vlib.build_bins()
-    sample = [c for c in cases if c["what"].startswith(("depth", "lex"))]
+    # (inputs on which the library itself already misbehaved are reported above, not sent again)
+    sample = [c for c in cases if c["what"].startswith(("depth", "lex")) and res[c["k"]]["status"] in ("ok", "err")]
     rnd.shuffle(sample)
     sample = sample[: (400 if big else 80)]
     wd = vlib.workdir("c01cli")
